@@ -28,6 +28,10 @@ FRAG = {
  "F25": "only count funds the wallet is willing to spend",
  "F26": "lite block placeholders must carry the hash",
  "F29": "handshake response for a different key on an authenticated connection",
+ "F30": "full node must ignore ghost chain messages",
+ "F31": "Block-tagged message from a peer must not abort",
+ "F32": "ghost chain request from a peer that has not completed the handshake",
+ "F33": "key list that is refused",
 }
 log = subprocess.run(["git","-C","/repo","log","--format=%h %s"],capture_output=True,text=True).stdout.splitlines()
 def find(frag):
